@@ -51,7 +51,7 @@ func sceneRespond(o ReqOpts) {
 	chk("C08 C05", (err == nil) == accepted, "accepted-iff-designated-provider-and-pending")
 
 	post, found := k.GetRequestContext(ctx, id)
-	chk("C09 C16", found, "ctx-kept")
+	chk("C09 C16 C08 C01 C02 C11", found, "ctx-kept")
 	vf.Assume(found)
 	chk("C09", vf.All(immutableCtx(pre, post), post.State == pre.State, post.BatchCounter == bc), "ctx-lifecycle-untouched-by-respond")
 	esc1 := vf.ModuleBalance(types.RequestAccName)
@@ -123,9 +123,9 @@ func sceneRespond(o ReqOpts) {
 	chk("C12", vf.All(post.BatchResponseCount == pre.BatchResponseCount+1, post.BatchRequestCount == pre.BatchRequestCount), "response-count-incremented")
 	all := nresp0+1 == s.M
 	if all {
-		chk("C12", post.BatchState == types.BATCHCOMPLETED, "batch-completed-when-all-answered")
+		chk("C12 C02", post.BatchState == types.BATCHCOMPLETED, "batch-completed-when-all-answered")
 	} else {
-		chk("C12", post.BatchState == types.BATCHRUNNING, "batch-not-completed-early")
+		chk("C12 C02 C01 C08 C16", post.BatchState == types.BATCHRUNNING, "batch-not-completed-early")
 	}
 	if pre.ModuleName != "" {
 		if all {
